@@ -180,10 +180,8 @@ def run_case(key, twin=False):
     transposed = None
     try:
         transposed = D._get_transposed_subscripts(s)
-    except ValueError:
+    except Exception:  # noqa: BLE001  ("rejected with an error": any exception is a rejection)
         pass
-    except Exception as ex:  # noqa: BLE001
-        return violation(f'_get_transposed_subscripts({s!r}) raises {type(ex).__name__} (not ValueError): {ex}', signature=f'c14-T-exc:{s}', kind='T-exc')
     if transposed is not None:
         try:
             t0 = op0.T
